@@ -262,3 +262,20 @@ pub fn sign_with_key(header_json: &str, payload_json: &str, alg: Alg, key: &json
     let sig = jsonwebtoken::crypto::sign(msg.as_bytes(), key, alg.jwt()).expect("sign");
     format!("{}.{}", msg, sig)
 }
+
+/// Fully general `create_presentation` arguments (C11 / C07: inconsistent combinations allowed).
+#[derive(Clone, Debug, PartialEq, Serialize, Deserialize)]
+pub struct RawPresentArgs {
+    pub nonce: Option<String>,
+    pub aud: Option<String>,
+    pub key: HolderKey,
+    pub sign_alg: Option<String>,
+}
+
+pub fn present_raw(holder: &mut SDJWTHolder, selection: &Map<String, Value>, a: &RawPresentArgs) -> Out<String> {
+    guarded(|| {
+        holder
+            .create_presentation(selection.clone(), a.nonce.clone(), a.aud.clone(), a.key.enc(), a.sign_alg.clone())
+            .map_err(|e| e.to_string())
+    })
+}
